@@ -15,6 +15,9 @@
 
    Partial: only the current schema is modelled; migrations from older versions are an
    abstract function here (the repository's TestMigrationConsistency covers the fixtures).
+   The migrations that can be pending on the current table layout (35 to 39), and settings and
+   pinned settings field by field instead of the (revision, value) pair used in this file, are
+   in Settings.v / Migrations.v with their theorems in Props_C18_Reopen.v.
    Operations that return an error (store call failing after the manager's checks passed,
    injected database fault) are the model's [Failed] step: nothing changes; that the code
    really leaves nothing behind is C09's subject and is checked here by the correspondence
